@@ -46,6 +46,7 @@ class Bind:
         self.exp = exp          # rust expr (FExp) = expected default recording; uses NAME placeholder
         self.droppable = droppable
         self.disp_exp = disp_exp  # FExp when recorded with `%name`
+        self.spelled = 0          # 1 / 2: primitive type written plainly / as a qualified path
 
 
 class Param:
@@ -111,9 +112,11 @@ def mk_param(kind, i, sl, lt, send):
     if kind in ("i32", "i64", "u8", "u64", "usize"):
         v = sl.nv()
         p.pat, p.ty = n, spell(kind)
+        q = 1 if p.ty == kind else 2
         p.store = [f"let s{i} = arg_eval({i}, inp.v[{v}] as {kind});"]
         p.call = f"s{i}"
         p.binds = [Bind(n, f"({n} as i64)", f"inp.v[{v}]", f'f_int("{n}", inp.v[{v}])')]
+        p.binds[0].spelled = q
     elif kind == "mut_val":
         v = sl.nv()
         p.pat, p.ty = f"mut {n}", "i64"
@@ -124,9 +127,11 @@ def mk_param(kind, i, sl, lt, send):
     elif kind == "bool":
         b = sl.nb()
         p.pat, p.ty = n, spell("bool")
+        q = 1 if p.ty == "bool" else 2
         p.store = [f"let s{i} = arg_eval({i}, inp.b[{b}]);"]
         p.call = f"s{i}"
         p.binds = [Bind(n, f"({n} as i64)", f"(inp.b[{b}] as i64)", f'f_bool("{n}", inp.b[{b}])')]
+        p.binds[0].spelled = q
     elif kind in ("ref_str", "string", "ref_string"):
         s = sl.ns()
         p.pat = n
@@ -134,8 +139,10 @@ def mk_param(kind, i, sl, lt, send):
         p.ty = {"ref_str": f"&{lt}str", "string": st, "ref_string": f"&{lt}{st}"}[kind]
         p.store = [f"let s{i} = arg_eval({i}, inp.s[{s}].clone());"]
         p.call = {"ref_str": f"s{i}.as_str()", "string": f"s{i}", "ref_string": f"&s{i}"}[kind]
+        q = 0 if kind == "ref_str" else (1 if st == "String" else 2)
         p.binds = [Bind(n, f"({n}.len() as i64)", f"(inp.s[{s}].len() as i64)", f'f_str("{n}", &inp.s[{s}])',
-                        disp_exp=f'FExp {{ name: "{n}", ok: vec![FV::Dbg(inp.s[{s}].clone())] }}')]
+                        disp_exp=f'FExp {{ name: "{n}", ok: vec![FV::Dbg(inp.s[{s}].clone())], spelled: 0 }}')]
+        p.binds[0].spelled = q
     elif kind in ("sent", "ref_sent", "mut_sent"):
         v = sl.nv()
         base = (i + 1) * 100
@@ -876,7 +883,8 @@ fn run_{N}(inst: bool, inp: &Inp, cx: Rc<Cx>) -> Pin<Box<dyn Future<Output = Out
     for b in binds:
         if b.name in skips or b.name in overridden or b.exp is None:
             continue
-        exps.append(b.exp)
+        # (only the AUTOMATIC field of a parameter is compared across spellings)
+        exps.append(b.exp + (f".spelled({b.spelled})" if b.spelled else ""))
     for (_, e, _) in custom:
         if e:
             exps.append(e)
